@@ -37,7 +37,7 @@ PROFILES = {
     'del': Profile(p_tag=0.35, tags=PRIO_TAGS + DEL_TAGS + DEL_TAGS, p_remove=0.05),
     'all': Profile(p_tag=0.35, tags=PRIO_TAGS + DEL_TAGS + ['!new', '!unsafe'], p_remove=0.04),
     'notnew': Profile(p_tag=0.3, tags=PRIO_TAGS + DEL_TAGS + NEW_TAGS + NEW_TAGS, p_remove=0.03),
-    'ops': Profile(p_tag=0.15, tags=PRIO_TAGS + DEL_TAGS, ops=['append', 'extend', 'prev', 'clear'], p_op=0.2),
+    'ops': Profile(p_tag=0.15, tags=PRIO_TAGS + DEL_TAGS, ops=['append', 'extend', 'prev', 'clear'], p_op=0.07, p_seq=0.4),
     'func': Profile(p_tag=0.25, tags=PRIO_TAGS + DEL_TAGS, dyn=['call', 'bind', 'callstr'], p_dyn=0.3),
     'required': Profile(p_tag=0.2, tags=PRIO_TAGS + DEL_TAGS, dyn=['required', 'call'], p_dyn=0.3, p_remove=0.05),
     'safe': Profile(p_tag=0.3, tags=PRIO_TAGS + DEL_TAGS + ['!unsafe', '!unsafe'], dyn=['call', 'bind', 'required', 'callstr'], p_dyn=0.3),
@@ -167,6 +167,13 @@ def related_doc(rng, prof, base, ctx=None):
 
     def mut(n, depth):
         r = rng.random()
+        if prof.ops and depth > 0:
+            q = rng.random()
+            if n[0] == 'seq' and q < 0.35 and ('append' in prof.ops or 'extend' in prof.ops):
+                op = rng.choice([o for o in prof.ops if o in ('append', 'extend')])
+                return ('seq', '!' + op, [gen_node(rng, prof, prof.max_depth, ctx) for _ in range(rng.randint(0, 2))])
+            if n[0] in ('seq', 'map') and q > 0.9 and 'clear' in prof.ops:
+                return ('sc', '!clear', '')
         if r < 0.25:
             return gen_node(rng, prof, depth, ctx)
         if n[0] == 'map':
@@ -213,7 +220,39 @@ def related_doc(rng, prof, base, ctx=None):
     return d
 
 
+def has_tag(n, tag):
+    if n[1] == tag:
+        return True
+    if n[0] == 'seq':
+        return any(has_tag(c, tag) for c in n[2])
+    if n[0] == 'map':
+        return any(has_tag(c, tag) for _, c in n[2])
+    return False
+
+
+def drop_tag(n, tag, repl=('sc', None, '1')):
+    if n[1] == tag:
+        return repl
+    if n[0] == 'seq':
+        return ('seq', n[1], [drop_tag(c, tag, repl) for c in n[2]])
+    if n[0] == 'map':
+        return ('map', n[1], [(k, drop_tag(c, tag, repl)) for k, c in n[2]])
+    return n
+
+
+def sanitize(doc):
+    """shapes the model does not follow faithfully (documented in DESIGN.md): !clear together with !prev in one document
+    (the cleared node is shared between the older and the newer tree and !prev may move it)"""
+    if has_tag(doc, '!clear') and has_tag(doc, '!prev'):
+        doc = drop_tag(doc, '!clear')
+    return doc
+
+
 def gen_history(rng, prof, nmin=1, nmax=4):
+    return [sanitize(d) for d in _gen_history(rng, prof, nmin, nmax)]
+
+
+def _gen_history(rng, prof, nmin=1, nmax=4):
     """a merge sequence: first document random, later ones related to an earlier one (or fresh)"""
     n = rng.randint(nmin, nmax)
     docs = [gen_doc(rng, prof, root_tag_ok=False)]
